@@ -144,9 +144,43 @@ def ops08 : List (String × Op) := [
       | .ok A, .ok B => (List.range (min A.ncomp B.ncomp)).map fun r =>
           (List.range A.ndims).map fun n => dot ((A.factors.getD n []).col r) ((B.factors.getD n []).col r)
       | _, _ => []
-    .ok (Json.mkObj [("res", exceptJ ktensorJ (Ktensor.fixsignsRefG svcRat fixed K o)),
+    let res := Ktensor.fixsignsRefG svcRat fixed K o
+    let Bn := Ktensor.normalize svcRat o none false .two none
+    -- the normal form on the model's result: sign scores after the call, the alignment predicate of
+    -- `C08_fixsigns_ref_normal_form` per component of the reference, and a second call
+    let (after, aligned) : List (List Rat) × List Bool :=
+      match res, Bn with
+      | .ok K', .ok B => ((List.range B.ncomp).map fun r => Ktensor.refScores K' B r,
+                          (List.range B.ncomp).map fun r => Ktensor.alignedComp K' B r)
+      | _, _ => ([], [])
+    let res2 := match res with
+      | .ok K' => Ktensor.fixsignsRefG svcRat fixed K' o
+      | .error e => .error e
+    .ok (Json.mkObj [("res", exceptJ ktensorJ res),
                      ("scores", ratMatJ scores),
-                     ("B", exceptJ ktensorJ (Ktensor.normalize svcRat o none false .two none))])),
+                     ("after", ratMatJ after),
+                     ("aligned", Json.arr (aligned.map Json.bool).toArray),
+                     ("res2", exceptJ ktensorJ res2),
+                     ("B", exceptJ ktensorJ Bn)])),
+  ("k_normalize_twice", fun j => do
+    let K ← field j "K" >>= asKtensor
+    let nt ← field j "nt" >>= asNormType
+    let r1 := Ktensor.normalize svcRat K none false nt none
+    let r2 := match r1 with
+      | .ok K1 => Ktensor.normalize svcRat K1 none false nt none
+      | .error e => .error e
+    .ok (Json.mkObj [("first", exceptJ ktensorJ r1), ("second", exceptJ ktensorJ r2)])),
+  ("k_arrange_compose", fun j => do
+    let K ← field j "K" >>= asKtensor
+    let p ← field j "p" >>= asInts
+    let q ← field j "q" >>= asInts
+    let r1 := Ktensor.arrange svcRat K none (some p)
+    let r2 := match r1 with
+      | .ok K1 => Ktensor.arrange svcRat K1 none (some q)
+      | .error e => .error e
+    let pq : List Int := (gatherD (p.map Int.toNat) (q.map Int.toNat) 0).map Int.ofNat
+    .ok (Json.mkObj [("first", exceptJ ktensorJ r1), ("second", exceptJ ktensorJ r2), ("pq", intsJ pq),
+                     ("direct", exceptJ ktensorJ (Ktensor.arrange svcRat K none (some pq)))])),
   ("k_redistribute", fun j => do
     let K ← field j "K" >>= asKtensor
     let m ← field j "mode" >>= asInt
@@ -203,6 +237,7 @@ def ops08 : List (String × Op) := [
     let K ← field j "K" >>= asKtensor
     let o ← field j "other" >>= asKtensor
     let wp ← boolD j "wp" true
+    let greedy ← boolD j "greedy" true
     let thr ← match fieldOpt j "thr" with
       | none => pure none
       | some v => do let q ← asRat v; pure (some q)
@@ -211,7 +246,7 @@ def ops08 : List (String × Op) := [
       | .error _ => []
     .ok (Json.mkObj [("C", ratMatJ C), ("res", exceptJ (fun (r : Ktensor.ScoreResult Rat) =>
         Json.mkObj [("score", ratJ r.score), ("A", ktensorJ r.A), ("flag", Json.bool r.flag), ("perm", intsJ r.perm)])
-      (Ktensor.score svcRat 10 (fun n => ((99 : Rat) / 100) ^ n) (fun n => (n : Rat)) K o wp thr))]))
+      (Ktensor.scoreG svcRat 10 (fun n => ((99 : Rat) / 100) ^ n) (fun n => (n : Rat)) K o wp thr greedy))]))
 ]
 
 end Pyttb.Driver
